@@ -33,7 +33,7 @@
                           journal even after a failed recovery, and the record of the failure reaches the filesystem superblock
                           only in a later flush epoch (after s_errno has been cleared again in the journal superblock) *)
 EXTENDS JournalRun, Json, IOUtils
-CONSTANTS DevReplayPastBadTag, DevScanAbort, DevAsyncLastBadCommit, DevCommitBreakContinues, DevErrorLostOnCrash
+CONSTANTS DevReplayPastBadTag, DevScanAbort, DevAsyncLastBadCommit, DevCommitBreakContinues
 VARIABLES l, rerr          \* rerr: error the uninterrupted recovery ends with ("" = success), computed by TLC from the journal
 tvars == <<vars, l, rerr>>
 
@@ -50,22 +50,23 @@ LegalFromLog(cf, lg, b) ==
    UNION {{J!Written(lg, lg[q].tags[n], J!AdvL(cf.L, J!WrapL(cf.L, q + 1), n - 1)) : n \in {m \in 1..Len(lg[q].tags) : lg[q].tags[m].blk = b}}
           : q \in {p \in 1..cf.L : lg[p].t = "desc"}}
 
-Idle == /\ plan' = <<>> /\ cache' = {} /\ i' = 0 /\ todo' = <<>> /\ image' = NoImage /\ crashes' = 0
+Idle == /\ plan' = <<>> /\ cache' = {} /\ i' = 0 /\ todo' = <<>> /\ failed' = FALSE /\ image' = NoImage /\ crashes' = 0
 TLoadC03 == /\ IsEvent("load") /\ Tr[l].kind = "c03"
             /\ LET x == Tr[l]  cf == CfgOf(x)  j == [start |-> x.jsb.start, seq |-> x.jsb.seq] IN
                  /\ Len(x.log) = cf.L /\ j.start \in 0..cf.L
                  /\ fin' = J!RecoverOf(cf, x.log, j, x.fs0).fs
-                 /\ rerr' = LET r == J!RecoverOf(cf, x.log, j, x.fs0) IN
-                            IF r.err # "" THEN r.err ELSE IF r.failed # 0 THEN "failed commit" ELSE ""   \* j_failed_commit -> jsb.s_errno
+                 /\ LET r == J!RecoverOf(cf, x.log, j, x.fs0)
+                        e == IF r.err # "" THEN r.err ELSE IF r.failed # 0 THEN "failed commit" ELSE ""   \* j_failed_commit -> jsb.s_errno
+                    IN rerr' = e /\ rfail' = (e # "")
                  /\ legal' = [b \in DOMAIN x.fs0 |-> LegalFromLog(cf, x.log, b)]
-                 /\ dur' = [blk |-> x.fs0, jsb |-> (IF j.start = 0 THEN 0 ELSE 1), sb |-> x.nr]
+                 /\ dur' = [blk |-> x.fs0, jsb |-> (IF j.start = 0 THEN 0 ELSE 1), sb |-> x.nr, st |-> 0]
             /\ pend' = <<>> /\ pc' = "trace" /\ Idle
 TLoadObs == /\ IsEvent("load") /\ Tr[l].kind = "obs"
             /\ LET x == Tr[l] IN
                  /\ Len(x.init) = Len(x.final) /\ Len(x.legal) = Len(x.init)
-                 /\ fin' = x.final /\ rerr' = (IF x.rfail = 1 THEN "recorded in s_state by the uninterrupted run" ELSE "")
+                 /\ fin' = x.final /\ rerr' = (IF x.rfail = 1 THEN "recorded in s_state by the uninterrupted run" ELSE "") /\ rfail' = (x.rfail = 1)
                  /\ legal' = [b \in DOMAIN x.init |-> SeqSet(x.legal[b])]
-                 /\ dur' = [blk |-> x.init, jsb |-> x.jsb0, sb |-> x.nr]
+                 /\ dur' = [blk |-> x.init, jsb |-> x.jsb0, sb |-> x.nr, st |-> 0]
             /\ pend' = <<>> /\ pc' = "trace" /\ Idle
 TWrite == /\ IsEvent("w") /\ pc = "trace" /\ DevWrite(E(Tr[l].k, Tr[l].b, Tr[l].v)) /\ UNCHANGED <<uvars, pvars, rerr>>
 TFsync == /\ IsEvent("fsync") /\ pc = "trace" /\ DevFsync /\ UNCHANGED <<uvars, pvars, rerr>>
@@ -80,9 +81,9 @@ TCrash == /\ IsEvent("crash") /\ pc = "trace"
           /\ UNCHANGED <<vars, rerr>>
 TDone == /\ IsEvent("done") /\ pc = "trace"
          /\ Tr[l].obs = fin /\ Tr[l].jstart = 0 /\ Tr[l].nro = 0 /\ Cur.blk = fin
-         /\ pc' = "done" /\ UNCHANGED <<dvars, uvars, plan, cache, i, todo, image, crashes, rerr>>
+         /\ pc' = "done" /\ UNCHANGED <<dvars, uvars, plan, cache, i, todo, failed, image, crashes, rerr>>
 
-TraceInit == Init /\ l = 1 /\ rerr = ""
+TraceInit == Init /\ l = 1 /\ rerr = "" /\ rfail = FALSE
 TraceNext == TLoadC03 \/ TLoadObs \/ TWrite \/ TFsync \/ TCrash \/ TDone
 TraceSpec == TraceInit /\ [][TraceNext]_tvars
 TraceAccepted == TLCGet("stats").diameter - 1 = Len(Tr)
